@@ -1181,8 +1181,16 @@ void NifFile::TrimTexturePaths() {
 		// Replace any run of slashes and backslashes with one backslash
 		tex = std::regex_replace(tex, std::regex("[/\\\\]+"), "\\");
 
-		// Search for the first occurrence of "\textures\" (only if "textures\" isn't at the start)
 		std::smatch match;
+
+		// Terrain paths that already are "Data\textures\..." keep their prefix
+		std::string dataPrefix;
+		if (isTerrain && std::regex_search(tex, match, std::regex("^Data\\\\(?=textures\\\\)", std::regex_constants::icase))) {
+			dataPrefix = match[0];
+			tex = tex.substr(dataPrefix.length());
+		}
+
+		// Search for the first occurrence of "\textures\" (only if "textures\" isn't at the start)
 		std::regex pattern(R"(^(?!textures\\)[\s\S]*?\\textures\\)", std::regex_constants::icase);
 	
 		// Without a "textures\" prefix being added afterwards (OB), a second "\textures\" further
@@ -1210,7 +1218,10 @@ void NifFile::TrimTexturePaths() {
 
 		// If the path doesn't start with "Data\", add it to the front
 		if (isTerrain && is_relative_path(tex)) {
-			tex = std::regex_replace(tex, std::regex("^(?!^Data\\\\)", std::regex_constants::icase), "Data\\");
+			if (!dataPrefix.empty())
+				tex = dataPrefix + tex;
+			else
+				tex = std::regex_replace(tex, std::regex("^(?!^Data\\\\)", std::regex_constants::icase), "Data\\");
 		}
 		return tex;
 	};
